@@ -229,7 +229,7 @@ class Run:
         extra = []
         if simulate:
             extra = ["-simulate", "num=%d" % simulate["num"], "-depth", str(simulate["depth"]), "-seed", str(self.seed)]
-        rc, out, dt = self.tlc(module, cfg_text, workers=workers, timeout=timeout, extra=extra)
+        rc, out, dt = self.tlc(module, cfg_text, workers=workers, timeout=timeout, extra=extra, heap="12g")
         st = self.tlc_stats(out)
         self.log("model-check %s: rc=%d generated=%d distinct=%d depth=%d %.1fs" %
                  (label or module, rc, st["generated"], st["distinct"], st["depth"], dt))
@@ -249,7 +249,7 @@ class Run:
         if simulate:
             extra = ["-simulate", "num=%d" % simulate["num"], "-depth", str(simulate["depth"]), "-seed", str(simulate.get("seed", self.seed))]
             workers = 1
-        rc, out, dt = self.tlc(module, cfg_text, workers=workers, timeout=timeout, extra=extra)
+        rc, out, dt = self.tlc(module, cfg_text, workers=workers, timeout=timeout, extra=extra, heap="8g")
         seen, res = set(), []
         for line in out.splitlines():
             line = line.strip()
@@ -292,7 +292,7 @@ class Run:
                     f.write(json.dumps({"key": "(none)"}) + "\n")
             e = {"VERIF_TRACE": tf.name, "VERIF_ALLOWED": ",".join(sorted(self.findings)), "VERIF_ALLOWED_FILE": af}
             e.update(env or {})
-            rc, out, dt = self.tlc(module, cfg_text, workers=1, timeout=1200, env=e)
+            rc, out, dt = self.tlc(module, cfg_text, workers=1, timeout=1200, env=e, heap="4g")
             os.unlink(tf.name)
             os.unlink(af)
             for m in re.finditer(r'<<"DEVIATION", "([^"]+)", (\d+)>>', out):
@@ -301,6 +301,8 @@ class Run:
                 return set(t for t, _ in items), rejections, deviations
             m = re.search(r'<<"REJECTED_AT", (\d+)>>', out)
             if not m:
+                errs = [x for x in out.splitlines() if x.startswith("Error") or "Exception" in x or "Attempted" in x or "violated" in x]
+                self.log("\n".join(errs[:20]))
                 self.log(out[-5000:])
                 raise Inconclusive("trace validation with %s failed without a rejection point (rc=%d)" % (module, rc))
             k = int(m.group(1))                     # 1-based index of the first unmatched line
